@@ -497,6 +497,14 @@ def LeafOnLeaf (d u : J) : Prop :=
 /-- no leaf path of one update is a prefix of (or equal to) a leaf path of the other -/
 def DisjointLeaves (u1 u2 : J) : Prop := ∀ p, ¬ (touched u1 p = true ∧ touched u2 p = true)
 
+/-- wherever both updates reach (a path on or below a leaf path of each) they say the same: the two
+files may share leaves such as `parameter_level` / `version` as long as the values are equal -/
+def AgreeOnCommon (u1 u2 : J) : Prop :=
+  ∀ p, touched u1 p = true → touched u2 p = true → get? p u1 = get? p u2
+
+theorem agree_of_disjoint {u1 u2 : J} (h : DisjointLeaves u1 u2) : AgreeOnCommon u1 u2 :=
+  fun p h1 h2 => absurd ⟨h1, h2⟩ (h p)
+
 /-- the merged tree, path by path: the update on and below its leaf paths, the defaults elsewhere -/
 theorem ru_shape {ukvs : KV} {d r : J} (hwf : ukvs.wf = true) (h : ruKvs d ukvs = .ok r)
     (hk : Known d (.obj ukvs)) (p : Path) :
@@ -570,12 +578,12 @@ theorem shape_node_inv {o : Option J} {l : List String} (h : shape o = .node l) 
       exact ⟨ks, rfl, h⟩
     | _ => simp [shape] at h
 
-/-- two updates with disjoint leaf paths, merged in either order, give the same tree -/
+/-- two updates that agree wherever both reach, merged in either order, give the same tree -/
 theorem ru_comm {u1 u2 : KV} {d r1 r12 r2 r21 : J}
     (hw1 : u1.wf = true) (hw2 : u2.wf = true) (hnd : NodupAt d)
     (hk1 : Known d (.obj u1)) (hk2 : Known d (.obj u2))
     (hl1 : LeafOnLeaf d (.obj u1)) (hl2 : LeafOnLeaf d (.obj u2))
-    (hdis : DisjointLeaves (.obj u1) (.obj u2))
+    (hdis : AgreeOnCommon (.obj u1) (.obj u2))
     (e1 : ruKvs d u1 = .ok r1) (e12 : ruKvs r1 u2 = .ok r12)
     (e2 : ruKvs d u2 = .ok r2) (e21 : ruKvs r2 u1 = .ok r21) : r12 = r21 := by
   have K12 : Known r1 (.obj u2) := known_after hw1 e1 hk1 hl1 hk2
@@ -598,7 +606,8 @@ theorem ru_comm {u1 u2 : KV} {d r1 r12 r2 r21 : J}
       cases t2 : touched (.obj u2) p with
       | false =>
         exact ⟨.obj u1, Or.inr (Or.inl rfl), by rw [a12f t2, a1t t1], a21t t1⟩
-      | true => exact absurd ⟨t1, t2⟩ (hdis p)
+      | true =>
+        exact ⟨.obj u2, Or.inr (Or.inr rfl), a12t t2, by rw [a21t t1, hdis p t1 t2]⟩
   apply ext_j
   · intro p ks hg
     obtain ⟨X, hX, hs, _⟩ := key p
@@ -1131,5 +1140,561 @@ theorem disjoint_of_keys {u1 u2 : KV} (h : ∀ k, k ∈ u1.keys → k ∉ u2.key
       cases hl2 : u2.lookup k with
       | none => simp [hl2] at h2
       | some v2 => exact h k (KV.mem_keys_of_lookup hl1) (KV.mem_keys_of_lookup hl2)
+
+
+/-! ### Boolean equality is equality; the decidable form of `AgreeOnCommon` -/
+
+mutual
+theorem J.beq_eq : ∀ (a b : J), J.beq a b = true → a = b
+  | .null, b, h => by cases b <;> simp_all [J.beq]
+  | .bool x, b, h => by cases b <;> simp_all [J.beq]
+  | .int x, b, h => by cases b <;> simp_all [J.beq]
+  | .float x y, b, h => by cases b <;> simp_all [J.beq]
+  | .str x, b, h => by cases b <;> simp_all [J.beq]
+  | .list x, b, h => by
+    cases b with
+    | list y => simp only [J.beq] at h; rw [JL.beq_eq x y h]
+    | _ => simp [J.beq] at h
+  | .obj x, b, h => by
+    cases b with
+    | obj y => simp only [J.beq] at h; rw [KV.beq_eq x y h]
+    | _ => simp [J.beq] at h
+theorem JL.beq_eq : ∀ (a b : JL), JL.beq a b = true → a = b
+  | .nil, b, h => by cases b <;> simp_all [JL.beq]
+  | .cons x s, b, h => by
+    cases b with
+    | nil => simp [JL.beq] at h
+    | cons y t =>
+      simp only [JL.beq, Bool.and_eq_true] at h
+      rw [J.beq_eq x y h.1, JL.beq_eq s t h.2]
+theorem KV.beq_eq : ∀ (a b : KV), KV.beq a b = true → a = b
+  | .nil, b, h => by cases b <;> simp_all [KV.beq]
+  | .cons k x s, b, h => by
+    cases b with
+    | nil => simp [KV.beq] at h
+    | cons k' y t =>
+      simp only [KV.beq, Bool.and_eq_true, beq_iff_eq] at h
+      rw [h.1.1, J.beq_eq x y h.1.2, KV.beq_eq s t h.2]
+end
+
+/-- what `agreeB` says about the values the two updates hold under a common key -/
+theorem agreeB_lookup : ∀ (u1 u2 : KV) (k : String) (v1 v2 : J), agreeB u1 u2 = true →
+    u1.lookup k = some v1 → u2.lookup k = some v2 →
+    (∃ a b, v1 = .obj a ∧ v2 = .obj b ∧ agreeB a b = true) ∨
+    (v1.isObj = false ∧ v2.isObj = false ∧ v1 = v2)
+  | .nil, _, _, _, _, _, h1, _ => by simp [KV.lookup] at h1
+  | .cons k0 x rest, u2, k, v1, v2, h, h1, h2 => by
+    simp only [agreeB, Bool.and_eq_true] at h
+    by_cases hk : k0 = k
+    · subst hk
+      simp only [KV.lookup, if_true] at h1
+      cases h1
+      have h0 := h.1
+      simp only [h2] at h0
+      cases x with
+      | obj a =>
+        cases v2 with
+        | obj b => exact Or.inl ⟨a, b, rfl, rfl, h0⟩
+        | _ => simp at h0
+      | null => cases v2 <;> first | exact Or.inr ⟨rfl, rfl, J.beq_eq _ _ h0⟩ | (simp at h0)
+      | bool _ => cases v2 <;> first | exact Or.inr ⟨rfl, rfl, J.beq_eq _ _ h0⟩ | (simp at h0)
+      | int _ => cases v2 <;> first | exact Or.inr ⟨rfl, rfl, J.beq_eq _ _ h0⟩ | (simp at h0)
+      | float _ _ => cases v2 <;> first | exact Or.inr ⟨rfl, rfl, J.beq_eq _ _ h0⟩ | (simp at h0)
+      | str _ => cases v2 <;> first | exact Or.inr ⟨rfl, rfl, J.beq_eq _ _ h0⟩ | (simp at h0)
+      | list _ => cases v2 <;> first | exact Or.inr ⟨rfl, rfl, J.beq_eq _ _ h0⟩ | (simp at h0)
+    · simp only [KV.lookup, hk, if_false] at h1
+      exact agreeB_lookup rest u2 k v1 v2 h.2 h1 h2
+
+theorem agree_of_agreeB : ∀ (p : Path) (u1 u2 : KV), agreeB u1 u2 = true →
+    touched (.obj u1) p = true → touched (.obj u2) p = true →
+    get? p (.obj u1) = get? p (.obj u2)
+  | [], _, _, _, h1, _ => by simp [touched] at h1
+  | k :: p', u1, u2, h, h1, h2 => by
+    simp only [touched] at h1 h2
+    cases hl1 : u1.lookup k with
+    | none => simp [hl1] at h1
+    | some v1 =>
+      cases hl2 : u2.lookup k with
+      | none => simp [hl2] at h2
+      | some v2 =>
+        simp only [hl1] at h1
+        simp only [hl2] at h2
+        simp only [get?, hl1, hl2]
+        rcases agreeB_lookup u1 u2 k v1 v2 h hl1 hl2 with ⟨a, b, rfl, rfl, hab⟩ | ⟨_, _, rfl⟩
+        · exact agree_of_agreeB p' a b hab h1 h2
+        · rfl
+
+theorem agreeOnCommon_of_agreeB {u1 u2 : KV} (h : agreeB u1 u2 = true) :
+    AgreeOnCommon (.obj u1) (.obj u2) :=
+  fun p h1 h2 => agree_of_agreeB p u1 u2 h h1 h2
+
+
+/-! ### `check_types` accepts exactly the conforming files -/
+
+mutual
+/-- the specification of acceptance, as a plain conjunction (no evaluation order, no error kinds):
+the node passes the type test; every key of a dictionary that is not an omit key is a key of the
+default and its value conforms to the default's value; every element of a list conforms to the
+first element of a non-empty default list -/
+def conforms (om : List String) (d : J) : J → Bool
+  | .obj tk =>
+    typeOk d (.obj tk) && (match d with
+      | .obj dk => confKvs om dk tk
+      | _ => true)
+  | .list tl =>
+    typeOk d (.list tl) && (match d with
+      | .list (.cons d0 _) => confList om d0 tl
+      | _ => true)
+  | t => typeOk d t
+def confKvs (om : List String) (dk : KV) : KV → Bool
+  | .nil => true
+  | .cons k tv rest =>
+    (om.contains k || (match dk.lookup k with
+      | some dv => conforms om dv tv
+      | none => false)) && confKvs om dk rest
+def confList (om : List String) (d0 : J) : JL → Bool
+  | .nil => true
+  | .cons t rest => conforms om d0 t && confList om d0 rest
+end
+
+mutual
+theorem ct_iff_conforms (om : List String) : ∀ (t d : J),
+    checkTypes om d t = .ok () ↔ conforms om d t = true
+  | .obj tk, d => by
+    simp only [checkTypes, conforms]
+    cases hty : typeOk d (.obj tk) with
+    | false => simp
+    | true =>
+      cases d with
+      | obj dk => simpa using ctKvs_iff om dk tk
+      | _ => simp
+  | .list tl, d => by
+    simp only [checkTypes, conforms]
+    cases hty : typeOk d (.list tl) with
+    | false => simp
+    | true =>
+      cases d with
+      | list dl =>
+        cases dl with
+        | nil => simp
+        | cons d0 ds => simpa using ctList_iff om d0 tl
+      | _ => simp
+  | .null, d => by simp only [checkTypes, conforms]; cases typeOk d .null <;> simp
+  | .bool b, d => by simp only [checkTypes, conforms]; cases typeOk d (.bool b) <;> simp
+  | .int i, d => by simp only [checkTypes, conforms]; cases typeOk d (.int i) <;> simp
+  | .float m e, d => by simp only [checkTypes, conforms]; cases typeOk d (.float m e) <;> simp
+  | .str x, d => by simp only [checkTypes, conforms]; cases typeOk d (.str x) <;> simp
+theorem ctKvs_iff (om : List String) (dk : KV) : ∀ (tk : KV),
+    ctKvs om dk tk = .ok () ↔ confKvs om dk tk = true
+  | .nil => by simp [ctKvs, confKvs]
+  | .cons k tv rest => by
+    simp only [ctKvs, confKvs]
+    cases ho : om.contains k with
+    | true => simpa using ctKvs_iff om dk rest
+    | false =>
+      cases hl : dk.lookup k with
+      | none => simp
+      | some dv =>
+        have ih1 := ct_iff_conforms om tv dv
+        have ih2 := ctKvs_iff om dk rest
+        cases hc : checkTypes om dv tv with
+        | error e =>
+          have : conforms om dv tv = false := by
+            cases hcf : conforms om dv tv with
+            | false => rfl
+            | true => rw [ih1.mpr hcf] at hc; cases hc
+          simp [this, hc]
+        | ok u =>
+          have : conforms om dv tv = true := ih1.mp (by rw [hc])
+          simpa [this, hc] using ih2
+theorem ctList_iff (om : List String) (d0 : J) : ∀ (tl : JL),
+    ctList om d0 tl = .ok () ↔ confList om d0 tl = true
+  | .nil => by simp [ctList, confList]
+  | .cons t rest => by
+    simp only [ctList, confList]
+    have ih1 := ct_iff_conforms om t d0
+    have ih2 := ctList_iff om d0 rest
+    cases hc : checkTypes om d0 t with
+    | error e =>
+      have : conforms om d0 t = false := by
+        cases hcf : conforms om d0 t with
+        | false => rfl
+        | true => rw [ih1.mpr hcf] at hc; cases hc
+      simp [this]
+    | ok u =>
+      have : conforms om d0 t = true := ih1.mp (by rw [hc])
+      simpa [this, hc] using ih2
+end
+
+
+theorem confKvs_iff (om : List String) (dk : KV) : ∀ (tk : KV),
+    confKvs om dk tk = true ↔
+      ∀ k tv, (k, tv) ∈ tk.toList → om.contains k = false →
+        ∃ dv, dk.lookup k = some dv ∧ conforms om dv tv = true
+  | .nil => by simp [confKvs, KV.toList]
+  | .cons k0 tv0 rest => by
+    simp only [confKvs, KV.toList, Bool.and_eq_true, Bool.or_eq_true, List.mem_cons, Prod.mk.injEq,
+      confKvs_iff om dk rest]
+    constructor
+    · rintro ⟨h0, hr⟩ k tv hm ho
+      rcases hm with ⟨rfl, rfl⟩ | hm
+      · rcases h0 with h0 | h0
+        · rw [h0] at ho; cases ho
+        · cases hl : dk.lookup k with
+          | none => simp [hl] at h0
+          | some dv => exact ⟨dv, rfl, by simpa [hl] using h0⟩
+      · exact hr k tv hm ho
+    · intro h
+      refine ⟨?_, fun k tv hm ho => h k tv (Or.inr hm) ho⟩
+      cases ho : om.contains k0 with
+      | true => exact Or.inl rfl
+      | false =>
+        obtain ⟨dv, hdv, hc⟩ := h k0 tv0 (Or.inl ⟨rfl, rfl⟩) ho
+        exact Or.inr (by simp [hdv, hc])
+
+theorem confList_iff (om : List String) (d0 : J) : ∀ (tl : JL),
+    confList om d0 tl = true ↔ ∀ x, x ∈ tl.toList → conforms om d0 x = true
+  | .nil => by simp [confList, JL.toList]
+  | .cons t rest => by
+    simp only [confList, JL.toList, Bool.and_eq_true, List.mem_cons, confList_iff om d0 rest]
+    constructor
+    · rintro ⟨h0, hr⟩ x hx
+      rcases hx with rfl | hx
+      · exact h0
+      · exact hr x hx
+    · intro h
+      exact ⟨h t (Or.inl rfl), fun x hx => h x (Or.inr hx)⟩
+
+
+/-! ### the intake, file by file -/
+
+theorem isStr_eq {x : J} {s : String} (h : x.isStr s = true) : x = .str s := by
+  cases x <;> simp_all [J.isStr]
+
+/-- the level string selects the branch -/
+theorem route_dispatch (defs : KV) (st : St) (file : KV) :
+    (file.lookup "parameter_level" = some (.str "simulation_settings") →
+        route defs st file = routeSim st file) ∧
+    (file.lookup "parameter_level" = some (.str "virtual_world") →
+        route defs st file = routeSection defs vwDefFile "virtual_world" st file) ∧
+    (file.lookup "parameter_level" = some (.str "programs") →
+        route defs st file = routeProgram defs st file) ∧
+    (file.lookup "parameter_level" = some (.str "methods") →
+        route defs st file = routeMethod st file) ∧
+    (file.lookup "parameter_level" = some (.str "outputs") →
+        route defs st file = routeSection defs outDefFile "outputs" st file) := by
+  refine ⟨?_, ?_, ?_, ?_, ?_⟩ <;> intro hl <;> simp only [route, hl] <;> rfl
+
+/-- wiring of the simulation-settings branch -/
+theorem routeSim_inv {st st' : St} {file : KV} (h : routeSim st file = .ok st') :
+    checkTypes ["programs"] (.obj ((st.sim.erase "virtual_world").erase "outputs")) (.obj file) = .ok () ∧
+    retainUpdate (.obj st.sim) (.obj file) = .ok (.obj st'.sim) ∧
+    st'.programs = st.programs ∧ st'.pool = st.pool := by
+  simp only [routeSim] at h
+  split at h
+  · cases h
+  · split at h
+    · cases h
+    · rename_i hc
+      split at h
+      · rename_i s hr
+        cases h
+        exact ⟨by cases ‹Unit›; exact hc, hr, rfl, rfl⟩
+      · cases h
+      · cases h
+
+/-- wiring of the programs branch -/
+theorem routeProgram_inv {defs : KV} {st st' : St} {file : KV}
+    (h : routeProgram defs st file = .ok st') :
+    ∃ d p nm key,
+      loadDef defs (match file.lookup "default_parameters" with
+                    | some v => v
+                    | none => .str progDefFile) = .ok d ∧
+      checkTypes ["methods"] d (.obj file) = .ok () ∧ retainUpdate d (.obj file) = .ok (.obj p) ∧
+      p.lookup "program_name" = some nm ∧ keyOf nm = some key ∧
+      st'.programs = st.programs.setKey key (.obj p) ∧ st'.sim = st.sim ∧ st'.pool = st.pool := by
+  simp only [routeProgram] at h
+  split at h
+  · cases h
+  · rename_i d hd
+    split at h
+    · cases h
+    · split at h
+      · cases h
+      · rename_i hc
+        split at h
+        · cases h
+        · rename_i p hr
+          split at h
+          · cases h
+          · rename_i nm hnm
+            split at h
+            · cases h
+            · rename_i key hkey
+              cases h
+              exact ⟨d, p, nm, key, hd, by cases ‹Unit›; exact hc, hr, hnm, hkey, rfl, rfl, rfl⟩
+        · cases h
+
+/-- wiring of the methods branch: the file is only put into the method pool (it is checked when a
+program installs it, `methods_installed`) -/
+theorem routeMethod_inv {st st' : St} {file : KV} (h : routeMethod st file = .ok st') :
+    ∃ nm key, file.lookup "method_name" = some nm ∧ keyOf nm = some key ∧
+      st'.pool = st.pool.setKey key (.obj file) ∧ st'.sim = st.sim ∧ st'.programs = st.programs := by
+  simp only [routeMethod] at h
+  split at h
+  · cases h
+  · rename_i nm hnm
+    split at h
+    · cases h
+    · rename_i key hkey
+      cases h
+      exact ⟨nm, key, hnm, hkey, rfl, rfl, rfl⟩
+
+/-- an accepted file has one of the five levels -/
+theorem route_level {defs : KV} {st st' : St} {file : KV} (h : route defs st file = .ok st') :
+    ∃ s, file.lookup "parameter_level" = some (.str s) ∧
+      (s = "simulation_settings" ∨ s = "virtual_world" ∨ s = "programs" ∨ s = "methods" ∨
+        s = "outputs") := by
+  simp only [route] at h
+  split at h
+  · cases h
+  · rename_i lvl hl
+    by_cases c1 : lvl.isStr "simulation_settings" = true
+    · exact ⟨_, by rw [hl, isStr_eq c1], Or.inl rfl⟩
+    · by_cases c2 : lvl.isStr "virtual_world" = true
+      · exact ⟨_, by rw [hl, isStr_eq c2], Or.inr (Or.inl rfl)⟩
+      · by_cases c3 : lvl.isStr "programs" = true
+        · exact ⟨_, by rw [hl, isStr_eq c3], Or.inr (Or.inr (Or.inl rfl))⟩
+        · by_cases c4 : lvl.isStr "methods" = true
+          · exact ⟨_, by rw [hl, isStr_eq c4], Or.inr (Or.inr (Or.inr (Or.inl rfl)))⟩
+          · by_cases c5 : lvl.isStr "outputs" = true
+            · exact ⟨_, by rw [hl, isStr_eq c5], Or.inr (Or.inr (Or.inr (Or.inr rfl)))⟩
+            · simp [c1, c2, c3, c4, c5] at h
+
+/-- every file of an accepted list was routed successfully from some state -/
+theorem routeAll_each (defs : KV) : ∀ (fs : List KV) (st st' : St), routeAll defs st fs = .ok st' →
+    ∀ f, f ∈ fs → ∃ s1 s2, route defs s1 f = .ok s2
+  | [], _, _, _, _, hf => by simp at hf
+  | g :: gs, st, st', h, f, hf => by
+    simp only [routeAll] at h
+    cases hr : route defs st g with
+    | error e => simp [hr] at h
+    | ok st1 =>
+      simp only [hr] at h
+      simp only [List.mem_cons] at hf
+      rcases hf with rfl | hf
+      · exact ⟨st, st1, hr⟩
+      · exact routeAll_each defs gs st1 st' h f hf
+
+theorem installPrograms_lookup (defs pool : KV) : ∀ (ps ps' : KV) (k : String) (p : J),
+    installPrograms defs pool ps = .ok ps' → ps.lookup k = some p →
+    ∃ r, installProgram defs pool p = .ok r ∧ ps'.lookup k = some r
+  | .nil, _, _, _, _, hl => by simp [KV.lookup] at hl
+  | .cons k0 p0 t, ps', k, p, h, hl => by
+    simp only [installPrograms] at h
+    cases hm : installProgram defs pool p0 with
+    | error e => simp [hm] at h
+    | ok r0 =>
+      simp only [hm] at h
+      cases ht : installPrograms defs pool t with
+      | error e => simp [ht] at h
+      | ok t' =>
+        simp only [ht] at h
+        cases h
+        by_cases hk : k0 = k
+        · subst hk
+          simp only [KV.lookup, if_true] at hl
+          cases hl
+          exact ⟨r0, hm, by simp [KV.lookup]⟩
+        · simp only [KV.lookup, hk, if_false] at hl
+          obtain ⟨r, h1, h2⟩ := installPrograms_lookup defs pool t t' k p ht hl
+          exact ⟨r, h1, by simp [KV.lookup, hk, h2]⟩
+
+/-- placeholder removal commutes with looking a path up -/
+theorem get?_rpVal : ∀ (p : Path) (j : J), get? p (rpVal j) = (get? p j).map rpVal
+  | [], j => by simp [get?_nil]
+  | k :: p, j => by
+    cases j with
+    | obj kvs =>
+      simp only [rpVal, get?, rpKvs_lookup]
+      cases kvs.lookup k with
+      | none => simp
+      | some v => simpa using get?_rpVal p v
+    | list l =>
+      have : ∀ x : J, x.isObj = false → get? (k :: p) x = none := fun x hx => get?_cons_leaf k p x hx
+      rw [this (.list l) rfl]
+      cases l with
+      | nil => simp [rpVal, rpList, get?]
+      | cons x t =>
+        cases t with
+        | nil =>
+          by_cases hx : x.isPh = true
+          · simp [rpVal, hx, get?]
+          · simp [rpVal, hx, get?]
+        | cons y t' => simp [rpVal, get?]
+    | null => simp [rpVal, J.isPh, get?]
+    | bool b => simp [rpVal, J.isPh, get?]
+    | int i => simp [rpVal, J.isPh, get?]
+    | float m e => simp [rpVal, J.isPh, get?]
+    | str s =>
+      simp only [rpVal]
+      split <;> simp [get?]
+
+
+/-! ### files of different slots can be swapped -/
+
+/-- what routing a file that is not a simulation-settings file does to the state: it writes one
+slot with a value computed from the file and the defaults alone -/
+inductive Write
+  | slot (s : String) (r : J)          -- `simulation_parameters[s] = r`
+  | prog (k : String) (p : J)          -- `programs[k] = p`
+  | meth (k : String) (m : J)          -- `method_pool[k] = m`
+
+def applyW : Write → St → St
+  | .slot s r, st => { st with sim := st.sim.setKey s r }
+  | .prog k p, st => { st with programs := st.programs.setKey k p }
+  | .meth k m, st => { st with pool := st.pool.setKey k m }
+
+/-- which slot a write goes to -/
+def Write.target : Write → String × String
+  | .slot s _ => ("section", s)
+  | .prog k _ => ("program", k)
+  | .meth k _ => ("method", k)
+
+/-- same dictionaries up to the order of keys -/
+def St.equiv (a b : St) : Prop :=
+  (∀ k, a.sim.lookup k = b.sim.lookup k) ∧ (∀ k, a.programs.lookup k = b.programs.lookup k) ∧
+  (∀ k, a.pool.lookup k = b.pool.lookup k)
+
+theorem KV.lookup_setKey_comm {k1 k2 : String} (v1 v2 : J) (h : k1 ≠ k2) (kvs : KV) (k : String) :
+    ((kvs.setKey k1 v1).setKey k2 v2).lookup k = ((kvs.setKey k2 v2).setKey k1 v1).lookup k := by
+  by_cases e1 : k = k1
+  · subst e1
+    rw [KV.lookup_setKey_ne v2 h, KV.lookup_setKey_same, KV.lookup_setKey_same]
+  · by_cases e2 : k = k2
+    · subst e2
+      rw [KV.lookup_setKey_same, KV.lookup_setKey_ne v1 e1, KV.lookup_setKey_same]
+    · rw [KV.lookup_setKey_ne v2 e2, KV.lookup_setKey_ne v1 e1, KV.lookup_setKey_ne v1 e1,
+        KV.lookup_setKey_ne v2 e2]
+
+/-- writes to different slots commute (up to key order) -/
+theorem applyW_comm (w1 w2 : Write) (st : St) (h : w1.target ≠ w2.target) :
+    St.equiv (applyW w2 (applyW w1 st)) (applyW w1 (applyW w2 st)) := by
+  cases w1 <;> cases w2 <;> refine ⟨?_, ?_, ?_⟩ <;> intro k <;> simp only [applyW] <;>
+    first
+    | rfl
+    | (apply KV.lookup_setKey_comm
+       intro e; apply h; simp [Write.target, e])
+
+theorem routeSection_uniform (defs : KV) (defFile slot : String) (file : KV) :
+    (∃ e, ∀ st, routeSection defs defFile slot st file = .error e) ∨
+    (∃ r, ∀ st, routeSection defs defFile slot st file = .ok (applyW (.slot slot r) st)) := by
+  simp only [routeSection, applyW]
+  cases h1 : loadDef defs (match file.lookup "default_parameters" with
+      | some v => v
+      | none => .str defFile) with
+  | error e => exact Or.inl ⟨e, fun _ => rfl⟩
+  | ok d =>
+    cases h2 : checkTypes [] d (.obj file) with
+    | error e => exact Or.inl ⟨e, fun _ => by simp [h2]⟩
+    | ok u =>
+      cases h3 : retainUpdate d (.obj file) with
+      | error e => exact Or.inl ⟨e, fun _ => by simp [h2, h3]⟩
+      | ok r => exact Or.inr ⟨r, fun _ => by simp [h2, h3]⟩
+
+theorem routeProgram_uniform (defs : KV) (file : KV) :
+    (∃ e, ∀ st, routeProgram defs st file = .error e) ∨
+    (∃ k p, ∀ st, routeProgram defs st file = .ok (applyW (.prog k p) st)) := by
+  simp only [routeProgram, applyW]
+  cases h1 : loadDef defs (match file.lookup "default_parameters" with
+      | some v => v
+      | none => .str progDefFile) with
+  | error e => exact Or.inl ⟨e, fun _ => rfl⟩
+  | ok d =>
+    cases h0 : file.lookup "program_name" with
+    | none => exact Or.inl ⟨_, fun _ => rfl⟩
+    | some nm0 =>
+      cases h2 : checkTypes ["methods"] d (.obj file) with
+      | error e => exact Or.inl ⟨e, fun _ => by simp [h2]⟩
+      | ok u =>
+        cases h3 : retainUpdate d (.obj file) with
+        | error e => exact Or.inl ⟨e, fun _ => by simp [h2, h3]⟩
+        | ok r =>
+          cases r with
+          | obj p =>
+            cases hn : p.lookup "program_name" with
+            | none => exact Or.inl ⟨.key_error, fun _ => by simp [h2, h3, hn]⟩
+            | some nm =>
+              cases hk : keyOf nm with
+              | none => exact Or.inl ⟨.type_error, fun _ => by simp [h2, h3, hn, hk]⟩
+              | some key => exact Or.inr ⟨key, .obj p, fun _ => by simp [h2, h3, hn, hk]⟩
+          | null => exact Or.inl ⟨.type_error, fun _ => by simp [h2, h3]⟩
+          | bool _ => exact Or.inl ⟨.type_error, fun _ => by simp [h2, h3]⟩
+          | int _ => exact Or.inl ⟨.type_error, fun _ => by simp [h2, h3]⟩
+          | float _ _ => exact Or.inl ⟨.type_error, fun _ => by simp [h2, h3]⟩
+          | str _ => exact Or.inl ⟨.type_error, fun _ => by simp [h2, h3]⟩
+          | list _ => exact Or.inl ⟨.type_error, fun _ => by simp [h2, h3]⟩
+
+theorem routeMethod_uniform (file : KV) :
+    (∃ e, ∀ st, routeMethod st file = .error e) ∨
+    (∃ k, ∀ st, routeMethod st file = .ok (applyW (.meth k (.obj file)) st)) := by
+  simp only [routeMethod, applyW]
+  cases h0 : file.lookup "method_name" with
+  | none => exact Or.inl ⟨_, fun _ => rfl⟩
+  | some nm =>
+    cases hk : keyOf nm with
+    | none => exact Or.inl ⟨.type_error, fun _ => by simp [hk]⟩
+    | some key => exact Or.inr ⟨key, fun _ => by simp [hk]⟩
+
+/-- the kind of slot a level writes -/
+def kindOf (s : String) : String :=
+  if s = "programs" then "program" else if s = "methods" then "method" else "section"
+
+/-- a file of one of the four non-accumulating levels either is rejected whatever came before, or
+writes one slot with a value that does not depend on what came before -/
+theorem route_uniform (defs : KV) (file : KV) (s : String)
+    (hl : file.lookup "parameter_level" = some (.str s))
+    (hs : s = "virtual_world" ∨ s = "outputs" ∨ s = "programs" ∨ s = "methods") :
+    (∃ e, ∀ st, route defs st file = .error e) ∨
+    (∃ w : Write, (∀ st, route defs st file = .ok (applyW w st)) ∧
+      w.target.1 = kindOf s ∧ (kindOf s = "section" → w.target.2 = s)) := by
+  rcases hs with rfl | rfl | rfl | rfl
+  · rcases routeSection_uniform defs vwDefFile "virtual_world" file with ⟨e, he⟩ | ⟨r, hr⟩
+    · exact Or.inl ⟨e, fun st => by rw [(route_dispatch defs st file).2.1 hl, he]⟩
+    · exact Or.inr ⟨_, fun st => by rw [(route_dispatch defs st file).2.1 hl, hr], rfl, fun _ => rfl⟩
+  · rcases routeSection_uniform defs outDefFile "outputs" file with ⟨e, he⟩ | ⟨r, hr⟩
+    · exact Or.inl ⟨e, fun st => by rw [(route_dispatch defs st file).2.2.2.2 hl, he]⟩
+    · exact Or.inr ⟨_, fun st => by rw [(route_dispatch defs st file).2.2.2.2 hl, hr], rfl,
+        fun _ => rfl⟩
+  · rcases routeProgram_uniform defs file with ⟨e, he⟩ | ⟨k, p, hr⟩
+    · exact Or.inl ⟨e, fun st => by rw [(route_dispatch defs st file).2.2.1 hl, he]⟩
+    · exact Or.inr ⟨_, fun st => by rw [(route_dispatch defs st file).2.2.1 hl, hr], rfl,
+        fun h => absurd h (by decide)⟩
+  · rcases routeMethod_uniform file with ⟨e, he⟩ | ⟨k, hr⟩
+    · exact Or.inl ⟨e, fun st => by rw [(route_dispatch defs st file).2.2.2.1 hl, he]⟩
+    · exact Or.inr ⟨_, fun st => by rw [(route_dispatch defs st file).2.2.2.1 hl, hr], rfl,
+        fun h => absurd h (by decide)⟩
+
+
+theorem KV.has_setKey_other {k k' : String} (v : J) (h : k' ≠ k) (kvs : KV) :
+    (kvs.setKey k v).has k' = kvs.has k' := by
+  simp [KV.has, KV.lookup_setKey_ne v h]
+
+/-- assigning a well-formed value keeps a dictionary well-formed -/
+theorem KV.wf_setKey (k : String) (v : J) : ∀ (kvs : KV), kvs.wf = true → v.wf = true →
+    (kvs.setKey k v).wf = true
+  | .nil, _, hv => by simp [KV.setKey, KV.wf, KV.has, KV.lookup, hv]
+  | .cons k' v' t, hwf, hv => by
+    obtain ⟨hk', hv', ht⟩ := KV.wf_cons hwf
+    have hnot : t.has k' = false := by
+      cases hh : t.has k' with
+      | false => rfl
+      | true => exact absurd ((KV.has_iff_mem_keys k' t).mp hh) hk'
+    by_cases e : k' = k
+    · subst e
+      simp [KV.setKey, KV.wf, hnot, hv, ht]
+    · have : (t.setKey k v).has k' = false := by
+        rw [KV.has_setKey_other v e]; exact hnot
+      simp [KV.setKey, e, KV.wf, this, hv', KV.wf_setKey k v t ht hv]
 
 end LdarModel.Tree
